@@ -98,6 +98,11 @@ def parseOp : List String → Option (Op × Bool)   -- Bool: sort all events (ma
       | some cn, some dcn => some (.deliver i cn (parseNatList pp) dcn 0, false)
       | _, _ => none
     | _, _, _, _ => none
+  | ["delivermax", i, _max, items] =>
+    -- the byte limit was applied by the real encoder; `items` is the whole-item count it produced
+    match i.toNat?, parseKV "items=" items with
+    | some i, some c => c.toNat?.map fun cn => (.deliver i cn [] 0 0, false)
+    | _, _ => none
   | ["join", n, m, r] => some (.join (hx n) (hx m) (r = "1") 0, false)
   | ["leavestream", n, m] => some (.leaveStream (hx n) (hx m) 0, false)
   | ["live", n, ids] => some (.liveness (hx n) (parseIdList ids) 0, true)
@@ -107,8 +112,22 @@ def parseOp : List String → Option (Op × Bool)   -- Bool: sort all events (ma
     | none => none
   | _ => none
 
+def viewExact (net : Net) (r a : String) : Bool :=
+  match net.nodes.find r, net.nodes.find a with
+  | some sr, some sa =>
+    match sr.nodes.find a with
+    | some V => V.version = (own sa).version &&
+        showEntries V.entries.vals = showEntries (own sa).entries.vals
+    | none => false
+  | _, _ => false
+
+def converged (net : Net) (ids : List String) : Bool :=
+  ids.all fun r => ids.all fun a => r = a || viewExact net r a
+
 def step (net : Net) (ws : List String) : Net × String :=
   if ws.head? = some "crash" then (net, "ok") else   -- harness bookkeeping only (node stops acting)
+  if ws.head? = some "converged" then
+    (net, "conv " ++ boolStr (converged net (parseIdList (ws.getD 1 "-")))) else
   match parseOp ws with
   | none => (net, "bad-op")
   | some (op, sortEv) =>
